@@ -75,6 +75,7 @@ RT, AT = 1e-10, 1e-12
 _ORDER = ["C"]
 _DTYPE = ["float64"]
 _ROWS = [None]
+_HELD = {}      # per case: the ONE array of each storage type that the caller keeps and hands to every first-side routine in turn
 
 
 def _pair(ctx, fails, case, name, f1, f2, X1, X2, store=None):
@@ -85,10 +86,16 @@ def _pair(ctx, fails, case, name, f1, f2, X1, X2, store=None):
         dt = "float64"          # a logical array is a storage type of a 0/1 matrix only for routines that merely count / sum entries
     if _ROWS[0] is not None and not any(name.startswith(r) for r in _ROWS[0]):
         return
-    o1 = ctx.call(f1, gen.layout(X1.astype(dt), _ORDER[0]))
+    # first side: the array the caller keeps (a routine that damages its argument answers correctly itself and spoils the routines that
+    # come after it); second side: a fresh copy of the pristine matrix
+    key = (id(X1), dt)
+    if key not in _HELD:
+        _HELD[key] = gen.layout(X1.astype(dt), _ORDER[0])
+    o1 = ctx.call(f1, _HELD[key])
     o2 = ctx.call(f2, gen.layout(X2.astype(dt), _ORDER[0]))
     if store is not None:
-        store.append((name, f1, f2, X1, X2, dt, o1, o2))
+        import copy as _copy
+        store.append((name, f1, f2, X1, X2, dt, o1, o2, _copy.deepcopy((o1.value if o1.ok else None, o2.value if o2.ok else None))))
     diff, how = compare.outcomes_equal(o1, o2, RT, AT)
     ctx.notes[how] += 1
     if how == "both_raise":
@@ -103,6 +110,7 @@ def check(case, ctx):
     _ROWS[0] = case.get("rows")
     binary01 = bool(np.all((np.array(case["W"]) == 0) | (np.array(case["W"]) == 1)))
     _DTYPE[0] = case.get("dtype", "float64") if binary01 else "float64"
+    _HELD.clear()
     ctx.label("dtype:" + _DTYPE[0])
     done = []
     W = gen.layout(np.array(case["W"], dtype=float), case.get("order"))
@@ -130,6 +138,11 @@ def check(case, ctx):
 
     sym = bool(np.array_equal(W, W.T))
     binary = bool(np.all((W == 0) | (W == 1)))
+    # the weight-blind routines come first: they receive the array the caller keeps, and the weighted pairs after them must still see its weights
+    if not binary:
+        B = A.astype(float)
+        for name, f in BLIND_DIR + (BLIND_UND if sym else []):
+            _pair(ctx, fails, case, "blind:" + name, f, f, W, B, done)
     if binary:
         for name, fw, fb, need_und in BIN_PAIRS:
             if need_und and not sym:
@@ -141,10 +154,6 @@ def check(case, ctx):
     if sym:
         for name, fd, fu in SYM_W_PAIRS:
             _pair(ctx, fails, case, name, fd, fu, W, W, done)
-    if not binary:
-        B = A.astype(float)
-        for name, f in BLIND_DIR + (BLIND_UND if sym else []):
-            _pair(ctx, fails, case, "blind:" + name, f, f, W, B, done)
     if fails or not case.get("sandwich"):
         return fails
     # history: every routine is called again after a batch of unrelated library calls on matrices of the same size
@@ -154,7 +163,19 @@ def check(case, ctx):
                  lambda: bct.threshold_proportional(W.copy(), 0.5), lambda: bct.get_components(np.maximum(W, W.T)),
                  lambda: bct.distance_wei_floyd(W.copy()), lambda: bct.binarize(W.copy()), lambda: bct.breadthdist(W.copy())):
         ctx.call(dist)
-    for name, f1, f2, X1, X2, dt, o1, o2 in done:
+    # ... and on another network of the same size; what the caller still holds from the first calls must be what was returned then
+    other = np.array(W.T[::-1, ::-1])
+    for name, f1, f2, X1, X2, dt, o1, o2, then in done:
+        for f in (f1, f2):
+            ctx.call(f, gen.layout(other.astype(dt), _ORDER[0]))
+    for name, f1, f2, X1, X2, dt, o1, o2, then in done:
+        now = (o1.value if o1.ok else None, o2.value if o2.ok else None)
+        if compare.deep_equal(now, then, 0.0, 0.0):
+            fails.append(Failure("%s:result-held-by-caller-changed-by-a-later-call" % name,
+                                 "values returned earlier differ from the copy taken when they were returned, after calls on another %d-node network: %s"
+                                 % (n, compare.deep_equal(now, then, 0.0, 0.0)), case))
+            return fails
+    for name, f1, f2, X1, X2, dt, o1, o2, then in done:
         for side, f, X, o in (("first", f1, X1, o1), ("second", f2, X2, o2)):
             o9 = ctx.call(f, gen.layout(X.astype(dt), _ORDER[0]))
             d, how = compare.outcomes_equal(o, o9)
